@@ -19,11 +19,13 @@
 //!   <value> = <coin> ~ | <coin> <k> {<policy hex> <asset name hex> <quantity>}*   (~ : multiasset None)
 //!   <addr>  = r (a reward address: add_regular_utxo rejects it) | <n> (enterprise key address number n)
 //!   <strategy>: 0 LargestFirst, 1 RandomImprove, 2 LargestFirstMultiAsset, 3 RandomImproveMultiAsset
-//! <id> stands for an outpoint: transaction hash = id (8 bytes big endian) followed by 24 bytes 0x11, index id mod 4.
+//! <id> stands for an outpoint: transaction hash = id (8 bytes big endian) followed by 24 bytes 0x11, output index
+//! OUT_INDEX[id mod 12] (all CBOR width classes).
 //!
 //! Result line: <ok|err:insufficient|err:other|panic|hang> I <n> <ids of the builder's inputs, ascending>
 //!              X <get_explicit_input as value with only non-zero assets | err> F <min_fee() of the builder after success or reported insufficiency | err | ->
 //!              G <outpoint added last by LargestFirst> <min_fee() of the builder without it> | -
+//!              K <number of evaluations of the builder's fee estimate during the call (hook H5)>
 //! The oracle entries a case needs are discovered by asking the extracted model (`c08_driver serve`) which entry it
 //! misses and answering with the real builder's fee_for_input / min_fee, until the model runs through.
 #![allow(deprecated)]
@@ -139,8 +141,10 @@ fn value(v: &V) -> Value {
 fn outpoint(id: u64) -> TransactionInput {
     let mut h = vec![0x11u8; 32];
     h[0..8].copy_from_slice(&id.to_be_bytes());
-    TransactionInput::new(&TransactionHash::from_bytes(h).unwrap(), (id % 4) as u32)
+    TransactionInput::new(&TransactionHash::from_bytes(h).unwrap(), OUT_INDEX[(id % 12) as usize])
 }
+/// output indices of every CBOR width class (1, 2, 3 and 5 bytes): the marginal fee of an input depends on it
+const OUT_INDEX: [u32; 12] = [0, 1, 2, 3, 23, 24, 255, 256, 65535, 65536, 70000, 300];
 fn id_of(i: &TransactionInput) -> u64 {
     let b = i.transaction_id().to_bytes();
     let mut x = [0u8; 8]; x.copy_from_slice(&b[0..8]); u64::from_be_bytes(x)
@@ -261,7 +265,10 @@ fn run_impl(c: &Case) -> (String, Vec<(u64, u64)>) {
     let mut offered = TransactionUnspentOutputs::new();
     for u in &c.offered { offered.add(&utxo(u)); }
     verif_hooks::verif_set_rng_script(Some(c.choices.clone()));
+    verif_oracle::verif_oracle_start();
     let r = std::panic::catch_unwind(std::panic::AssertUnwindSafe(|| tb.add_inputs_from(&offered, strategy(c.strat))));
+    // hook H5: how often the selection evaluated the builder's fee estimate (once for the target, twice per fee_for_input)
+    let fee_evaluations = verif_oracle::verif_oracle_take().iter().filter(|e| e.0 == b'F').count();
     let draws = verif_hooks::verif_rng_draws();
     verif_hooks::verif_set_rng_script(None);
     let status = match &r {
@@ -285,7 +292,7 @@ fn run_impl(c: &Case) -> (String, Vec<(u64, u64)>) {
         None => "-".to_string(),
     } } else { "-".to_string() };
     let idl: Vec<String> = ids.iter().map(|i| format!(" {}", i)).collect();
-    (format!("{} I {}{} X {} F {} G {}", status, ids.len(), idl.concat(), x, f, g), draws)
+    (format!("{} I {}{} X {} F {} G {} K {}", status, ids.len(), idl.concat(), x, f, g, fee_evaluations), draws)
 }
 
 // ------------------------------------------------------------------------------------------------ watchdog
@@ -526,7 +533,14 @@ fn gen_scenario(r: &mut Rng, max_utxos: u64) -> Case {
         c.label = "eq".to_string();
         c.strat = 0; c.cpb = 0; c.pre.clear(); c.implicit = 0; c.deposit = 0; c.donation = None;
         c.mint = V { coin: 0, ma: None }; c.burn = V { coin: 0, ma: None };
-        for (i, u) in c.offered.iter_mut().enumerate() { u.val.ma = None; if u.addr == "r" { u.addr = "0".to_string(); } if u.val.coin < 10_000 { u.val.coin += 700_000 + i as u64; } }
+        // sometimes 24..32 UTxOs (the 24th input widens the array headers), often all at one address (the marginal fee of
+        // a further input of an address is not a constant: output index width, header growth)
+        if r.chance(1, 4) {
+            let want = r.range(25, 32) as usize;
+            while c.offered.len() < want { let mut u = c.offered[r.below(c.offered.len() as u64) as usize].clone(); u.id = c.offered.iter().map(|x| x.id).max().unwrap() + r.range(1, 7); u.val.coin = coin_for(r, 1) + r.below(1000); c.offered.push(u); }
+        }
+        let one_address = r.chance(2, 3);
+        for (i, u) in c.offered.iter_mut().enumerate() { u.val.ma = None; if u.addr == "r" || one_address { u.addr = "0".to_string(); } if u.val.coin < 10_000 { u.val.coin += 700_000 + i as u64; } }
         c.outs = vec![U { id: 0, addr: "10".to_string(), val: V { coin: 1_000_000, ma: None } }];
         if r.chance(1, 2) {
             let f0: u64 = builder(&c, &[]).ok().and_then(|tb| tb.min_fee().ok()).map(|f| f.into()).unwrap_or(170_000);
@@ -534,7 +548,8 @@ fn gen_scenario(r: &mut Rng, max_utxos: u64) -> Case {
         }
         let mut order: Vec<usize> = (0..c.offered.len()).collect();
         order.sort_by(|a, b| c.offered[*b].val.coin.cmp(&c.offered[*a].val.coin).then(b.cmp(a)));   // as largest-first takes them
-        let k = r.range(1, (c.offered.len() - 1) as u64) as usize;
+        let k = if c.offered.len() > 24 && r.chance(2, 3) { r.range(24, (c.offered.len() - 1) as u64) as usize }
+                else { r.range(1.max((c.offered.len() - 1).min(3)) as u64, (c.offered.len() - 1) as u64) as usize };
         let sum: u128 = order[0..k].iter().map(|i| c.offered[*i].val.coin as u128).sum();
         if sum < (1u128 << 62) {
             let mut out = sum as u64;
@@ -543,7 +558,7 @@ fn gen_scenario(r: &mut Rng, max_utxos: u64) -> Case {
                 let top: Vec<&U> = order[0..k].iter().map(|i| &c.offered[*i]).collect();
                 if let Ok(tb) = builder(&c, &top) { if let Ok(f) = tb.min_fee() { let f: u64 = f.into(); if (sum as u64) > f { out = sum as u64 - f; } } }
             }
-            c.outs[0].val.coin = out + *r.pick(&[0u64, 0, 0, 1, 50, 100, 170, 200, 400]);
+            c.outs[0].val.coin = out + *r.pick(&[0u64, 0, 0, 1, 1, 30, 44, 50, 88, 100, 170, 200, 400]);
         }
         return c;
     }
